@@ -12,7 +12,11 @@ func PackSize(format string) (uint, error) {
 		maxAlignment: defaultMaxAlignement,
 	}}
 	for s.hasNext() {
-		switch c := s.nextOption(); c {
+		c := s.nextOptionAfterX()
+		if s.err != nil {
+			return 0, s.err
+		}
+		switch c {
 		case '<', '>', '=', ' ':
 			// Nothing to do
 		case '!':
@@ -44,7 +48,9 @@ func PackSize(format string) (uint, error) {
 			return 0, s.err
 		}
 	}
-
+	if s.alignOnly {
+		return 0, errExpectedOption
+	}
 	return s.size, nil
 }
 
